@@ -125,3 +125,423 @@ def o12_1_confirm(v, out):
 def o12_1_witness_ok(w, out):
     if out.get('_rc') != 0: return False
     return out.get('fragments') == w['executor_result'] and int(out.get('trailer', '0')) == w['trailer']
+
+
+# =============================================================== reader
+def eof_discriminant(mir, fn):
+    """Numeric discriminant of std::io::ErrorKind::UnexpectedEof, read off the match in read_record's own MIR."""
+    import re
+    fn.parse()
+    kinds = [l for l, t in fn.locals.items() if t.strip() == 'std::io::ErrorKind']
+    for bb, sts in fn.blocks.items():
+        for i, st in enumerate(sts):
+            m = re.match(r'(_\d+) = discriminant\((_\d+)\);', st)
+            if m and m.group(2) in kinds:
+                for st2 in sts[i + 1:]:
+                    m2 = re.match(r'switchInt\(move %s\) -> \[(\d+): ' % m.group(1), st2)
+                    if m2: return int(m2.group(1))
+    raise Inconclusive('cannot find the ErrorKind::UnexpectedEof match in read_record')
+
+
+class Stream:
+    """An abstract log file: fragments with symbolic payload length, type, checksum-ok flag and number of bytes actually
+    present (a torn fragment has fewer than 7+len bytes); trailers are implied by the block arithmetic; `cut` = file length."""
+    def __init__(self, m, types=None, torn=None, name='s', trailers=None):
+        self.m = m
+        self.T = [BitVec('%s_t%d' % (name, i), 64) if types is None else bv(TYPES[types[i]]) for i in range(m)]
+        self.types = types
+        self.L = [BitVec('%s_n%d' % (name, i), 64) for i in range(m)]
+        self.ok = [Bool('%s_ok%d' % (name, i)) for i in range(m)]
+        torn = torn or {}
+        self.present = [torn.get(i, bv(HDR) + self.L[i]) for i in range(m)]   # bytes of fragment i in the file
+        self.pre = [ULE(t, bv(3)) for t in self.T] + [ULE(l, bv(BLOCK - HDR)) for l in self.L]
+        self.pre += [ULT(q, bv(HDR) + self.L[i]) for i, q in torn.items()]
+        self.b, self.pos, self.gap, self.endpos = [], [], [], []
+        b, pos = bv(0), bv(0)
+        for i in range(m):
+            self.b.append(b); self.pos.append(pos)
+            e = b + self.present[i]
+            self.pre.append(ULE(b + bv(HDR) + self.L[i], bv(BLOCK)))         # a fragment never crosses a block end (O12.1)
+            g = bv(BLOCK) - e
+            if trailers is not None:                                       # case split chosen by the caller (keeps the formulas free of if-then-else)
+                self.pre.append(ULT(g, bv(HDR)) if trailers[i] else UGE(g, bv(HDR)))
+                tr = g if trailers[i] else bv(0)
+            else: tr = If(ULT(g, bv(HDR)), g, bv(0))                         # implied trailer
+            self.gap.append(tr)
+            self.endpos.append(pos + self.present[i])
+            pos = pos + self.present[i] + tr
+            b = URem(e + tr, bv(BLOCK))
+        self.end = self.endpos[-1] if m else bv(0)         # the file ends with its last fragment (a trailer is written by the next append)
+        self.cut = self.end
+        if types is not None:
+            for i, t in enumerate(types):
+                if t in ('First', 'Middle') and i not in torn:
+                    self.pre.append(self.b[i] + bv(HDR) + self.L[i] == bv(BLOCK))     # non-final fragments fill their block (O12.1)
+
+
+def reader_summaries(mir, st_, eofd):
+    S = log_summaries(mir)
+    P = S['$patterns']
+    P[r'Vec::new'] = lambda se, env, pc: lib.one(env, {'segs': [], 'len': bv(0)})
+    P[r'<Vec<u8> as DerefMut>::deref_mut'] = lib.ident
+    recf = mir.struct_fields('BlockRecord')
+
+    def serve(se, env, pc, bufref, exact):
+        st = env['$state']; buf = se.deref(env, bufref); want = buf['len']
+        i, phase = st['cur']
+        outs = []
+        def out(cond, ret, **upd):
+            nst = dict(st); nb = upd.pop('buf', None); nst.update(upd); nst['reads'] = st['reads'] + 1
+            outs.append((cond, ret, nst, [(bufref, nb)] if nb is not None else []))
+        s = st_
+        if phase == 'gap':
+            # after the payload of fragment i: an implied trailer of gap[i] bytes, then fragment i+1
+            g = s.gap[i]
+            if exact:
+                avail = s.cut - (s.pos[i] + s.present[i])
+                okc = And(g != bv(0), want == g)
+                out(And(okc, UGE(avail, g)), Enum('Ok', ((),)), cur=(i + 1, 'hdr'), buf=dict(buf, kind='trailer'))
+                out(And(okc, ULT(avail, g)), Enum('Err', ({'kind': Enum('UnexpectedEof', (), 'ErrorKind'), '__ty': 'io::Error'},)), cur=(i + 1, 'hdr'), ended=True)
+                out(Not(okc), Enum('Ok', ((),)), desync='read_exact(%s) does not match the trailer after fragment %d' % ('?', i), cur=(i + 1, 'hdr'))
+                return outs
+            # plain read while a trailer is pending -> the reader is not block-aligned
+            nst = dict(st); nst['cur'] = (i + 1, 'hdr')
+            sub = serve_hdr(se, env, pc, bufref, buf, want, i + 1, nst)
+            for c, r, s2, wr in sub: outs.append((And(g == bv(0), c) if c is not None else g == bv(0), r, s2, wr))
+            out(g != bv(0), Enum('Ok', (bv(0),)), desync='read of a header while %s trailer bytes are pending after fragment %d' % ('gap', i), cur=(i + 1, 'hdr'))
+            return outs
+        if exact:
+            out(None, Enum('Ok', ((),)), desync='read_exact at fragment %d phase %s' % (i, phase)); return outs
+        if phase == 'hdr': return serve_hdr(se, env, pc, bufref, buf, want, i, st)
+        # payload of fragment i
+        have = s.present[i] - bv(HDR)                     # payload bytes of this fragment that are in the file
+        later = i + 1 < s.m                               # bytes of later fragments follow a torn one
+        avail = s.cut - (s.pos[i] + bv(HDR))
+        full = And(want == s.L[i], have == s.L[i], UGE(avail, s.L[i]))
+        out(full, Enum('Ok', (s.L[i],)), cur=(i, 'gap'), buf=dict(buf, kind='pay', frag=i))
+        short_cut = And(want == s.L[i], have == s.L[i], ULT(avail, s.L[i]))
+        p = BitVec('short%d_%d' % (i, st['reads']), 64)
+        out(And(short_cut, p == avail), Enum('Ok', (p,)), cur=(i, 'gap'), buf=dict(buf, kind='partial'), ended=True)
+        torn = And(want == s.L[i], ULT(have, s.L[i]))
+        if later:
+            # the read runs into the bytes appended later; it is harmless for alignment iff it ends exactly where a later fragment starts
+            realigned = []
+            for j in range(i + 1, s.m):
+                cj = And(torn, s.pos[i] + bv(HDR) + s.L[i] == s.pos[j], UGE(s.cut, s.pos[j]))
+                realigned.append(cj)
+                out(cj, Enum('Ok', (s.L[i],)), cur=(j, 'hdr'), buf=dict(buf, kind='garbage'))
+            out(And(torn, Not(Or(*realigned))), Enum('Ok', (s.L[i],)), cur=(i, 'gap'), buf=dict(buf, kind='garbage'),
+                desync='payload read of torn fragment %d consumes bytes of the records appended after it' % i)
+        else:
+            out(And(torn, p == have), Enum('Ok', (p,)), cur=(i, 'gap'), buf=dict(buf, kind='partial'), ended=True)
+        out(want != s.L[i], Enum('Ok', (bv(0),)), desync='payload read length differs from the fragment length (fragment %d)' % i)
+        return outs
+
+    def serve_hdr(se, env, pc, bufref, buf, want, i, st):
+        outs = []
+        def out(cond, ret, **upd):
+            nst = dict(st); nb = upd.pop('buf', None); nst.update(upd); nst['reads'] = st['reads'] + 1
+            outs.append((cond, ret, nst, [(bufref, nb)] if nb is not None else []))
+        s = st_
+        if i >= s.m:
+            out(None, Enum('Ok', (bv(0),)), cur=(i, 'hdr'), ended=True); return outs
+        avail = s.cut - s.pos[i]
+        hp = If(ULT(s.present[i], bv(HDR)), s.present[i], bv(HDR))       # header bytes present
+        full = And(want == bv(HDR), hp == bv(HDR), UGE(avail, bv(HDR)))
+        out(full, Enum('Ok', (bv(HDR),)), cur=(i, 'pay'), buf=dict(buf, kind='hdr', frag=i))
+        h = BitVec('hshort%d_%d' % (i, st['reads']), 64)
+        if i + 1 < s.m:
+            out(And(want == bv(HDR), hp != bv(HDR)), Enum('Ok', (bv(HDR),)), cur=(i, 'pay'), buf=dict(buf, kind='garbage'),
+                desync='header read of torn fragment %d consumes bytes of the records appended after it' % i)
+            out(And(want == bv(HDR), hp == bv(HDR), ULT(avail, bv(HDR)), h == avail), Enum('Ok', (h,)), cur=(i, 'pay'), buf=dict(buf, kind='partial'), ended=True)
+        else:
+            out(And(want == bv(HDR), Or(hp != bv(HDR), ULT(avail, bv(HDR))), h == If(ULT(avail, hp), avail, hp)), Enum('Ok', (h,)), cur=(i, 'pay'), buf=dict(buf, kind='partial'), ended=True)
+        out(want != bv(HDR), Enum('Ok', (bv(0),)), desync='header read of %s bytes' % 'n')
+        return outs
+
+    P[r'<dyn ReadonlyRandomAccessFile as std::io::Read>::read'] = lambda se, env, pc, f, b: serve(se, env, pc, b, False)
+    P[r'<dyn ReadonlyRandomAccessFile as std::io::Read>::read_exact'] = lambda se, env, pc, f, b: serve(se, env, pc, b, True)
+    P[r'<dyn ReadonlyRandomAccessFile as ReadonlyRandomAccessFile>::len'] = lambda se, env, pc, f: lib.one(env, Enum('Ok', (st_.cut,)))
+    P[r'<Box<dyn ReadonlyRandomAccessFile> as Deref(?:Mut)?>::deref(?:_mut)?'] = lib.ident
+    def decode(se, env, pc, t):
+        t = se.deref(env, t) if isinstance(t, Ref) else t
+        if t.get('kind') == 'hdr': return lib.one(env, Extract(15, 0, st_.L[t['frag']]))
+        return lib.one(env, BitVec('garbage_len_%d' % env['$state']['reads'], 16))
+    P[r'<u16 as FixedInt>::decode_fixed'] = decode
+    P[r'std::slice::<impl \[Vec<u8>\]>::concat'] = lambda se, env, pc, r: lib.one(env, {'kind': 'block', 'parts': list(se.deref(env, r) if isinstance(r, Ref) else r)})
+    def try_from(se, env, pc, r):
+        blk = se.deref(env, r); parts = blk['parts']
+        hdr = parts[0]; pay = parts[1]
+        if hdr.get('kind') == 'hdr' and pay.get('kind') == 'pay' and hdr['frag'] == pay['frag']:
+            i = hdr['frag']
+            rec = {recf.index('checksum'): Opaque('crc'), recf.index('length'): Extract(15, 0, st_.L[i]), recf.index('block_type'): st_.T[i],
+                   recf.index('data'): {'segs': [i], 'len': st_.L[i]}, '__ty': 'BlockRecord'}
+            return [(st_.ok[i], Enum('Ok', (rec,)), env['$state']), (Not(st_.ok[i]), Enum('Err', (Enum('Seralization', (Opaque('msg'),), 'LogIOError'),)), env['$state'])]
+        # garbage: with a real CRC this fails (up to a 2^-32 collision, outside the model)
+        return [(None, Enum('Err', (Enum('Seralization', (Opaque('msg'),), 'LogIOError'),)), env['$state'])]
+    P[r'<BlockRecord as TryFrom<&Vec<u8>>>::try_from'] = try_from
+    def extend(se, env, pc, r, data):
+        cur = se.deref(env, r)
+        se.store(env, r, {'segs': cur['segs'] + data['segs'], 'len': cur['len'] + data['len']}); return lib.one(env, ())
+    P[r'<Vec<u8> as Extend<u8>>::extend'] = extend
+    P[r'must_use'] = lib.ident
+    P[r'format'] = lambda se, env, pc, *a: lib.one(env, {'str': '<formatted>'})
+    return S
+
+
+def run_reader(mir, s, pre, max_calls, budget=None, on_path=None):
+    """Call read_record repeatedly on the abstract stream; returns (executor, list of (pc, outputs, final state))
+    where outputs = list of ('rec', [fragment indexes]) | ('err',) | ('eof',)."""
+    fn = mir.method('LogReader', 'read_record')
+    from ..exec import STD_DISCR
+    STD_DISCR['UnexpectedEof'] = eof_discriminant(mir, fn)
+    S = reader_summaries(mir, s, STD_DISCR['UnexpectedEof'])
+    ex = Exec(mir, S, loop_bound=s.m + 4, budget_s=budget)
+    reader = mir.mk_struct('LogReader', log_file='file', log_file_path='path', initial_offset=bv(0), current_cursor_position=bv(0), current_block_offset=bv(0))
+    finished = []
+    def fin(pc, outs, st, rd):
+        finished.append((pc, outs, st, rd))
+        if on_path: on_path(ex, pc, outs, st, rd)
+    def again(env, pc, outs, n):
+        if n == 0:
+            fin(pc, outs + [('more',)], env['$state'], env['$reader']); return
+        def k(ret, env2, pc2):
+            if env2['$state'].get('desync'):
+                fin(pc2, outs + [('desync', env2['$state']['desync'])], env2['$state'], env2['$reader']); return
+            if isinstance(ret, Enum) and ret.tag == 'Ok':
+                data, eof = ret.fields[0]
+                if is_true(simplify(eof)):
+                    fin(pc2, outs + [('eof',)], env2['$state'], env2['$reader']); return
+                again(env2, pc2, outs + [('rec', list(data['segs']))], n - 1)
+            else:
+                fin(pc2, outs + [('err',)], env2['$state'], env2['$reader'])
+        ex.run_fn(fn, [Ref('$reader')], env, pc, k)
+    env = {'$state': {'cur': (0, 'hdr'), 'reads': 0}, '$reader': reader}
+    ex.solver.push()
+    try:
+        ex.solver.add(*pre)
+        if str(ex.solver.check()) != 'sat': raise Inconclusive('stream precondition unsatisfiable (vacuous)')
+        again(env, list(pre), [], max_calls)
+    finally:
+        ex.solver.pop()
+    ex.paths = len(finished)
+    return ex, finished
+
+
+def groups_of(types):
+    """types: concrete list of 'Full'/'First'/'Middle'/'Last' -> list of records (lists of fragment indexes) per writer grammar, or None."""
+    out, cur = [], None
+    for i, t in enumerate(types):
+        if t == 'Full':
+            if cur is not None: return None
+            out.append([i])
+        elif t == 'First':
+            if cur is not None: return None
+            cur = [i]
+        elif t == 'Middle':
+            if cur is None: return None
+            cur.append(i)
+        else:
+            if cur is None: return None
+            cur.append(i); out.append(cur); cur = None
+    return out if cur is None else None
+
+
+def trailer_splits(types):
+    """Case split over 'fewer than 7 bytes remain in the block after fragment i' (always true for block-filling fragments)."""
+    free = [i for i, t in enumerate(types) if t in ('Full', 'Last')]
+    for bits in itertools.product((False, True), repeat=len(free)):
+        tr = [True] * len(types)
+        for i, b in zip(free, bits): tr[i] = b
+        yield tr
+
+
+def type_patterns(m, allow_abandoned=False):
+    """All concrete type sequences of m fragments that a sequence of writers can produce: complete records, optionally
+    (allow_abandoned) one abandoned record prefix First Middle* followed by complete records of a reopened writer."""
+    names = ['Full', 'First', 'Middle', 'Last']
+    for ts in itertools.product(names, repeat=m):
+        g = groups_of(list(ts))
+        if g is not None: yield list(ts), g, None
+        elif allow_abandoned:
+            # find one abandoned prefix
+            for a in range(m):
+                if ts[a] != 'First': continue
+                for e in range(a, m):
+                    if all(ts[x] == 'Middle' for x in range(a + 1, e + 1)):
+                        rest = list(ts[:a]) + list(ts[e + 1:])
+                        g2 = groups_of(rest)
+                        if g2 is not None and e + 1 < m and groups_of(list(ts[:a])) is not None and groups_of(list(ts[e + 1:])) is not None:
+                            idx = list(range(a)) + list(range(e + 1, m))
+                            yield list(ts), [[idx[j] for j in grp] for grp in g2], (a, e)
+
+
+def _script(m, s, groups_all, appended_order, extra):
+    """Render a model as a native scenario: record lengths in append order plus truncation / reopen / corruption steps."""
+    return None
+
+
+def _rec_len(m, s, grp): return sum(mval(m, s.L[i]) for i in grp)
+
+
+def _checker(res, expected_fn, label_prefix, argv_fn, witness_sink=None):
+    """Returns on_path(ex, pc, outs, st, reader): a path is fine iff under its path condition one of the conditions of
+    expected_fn() holds whose expected outputs equal the path's outputs. Runs inside the solver context of the path."""
+    import re as _re
+    def on_path(ex, pc, outs, st, reader):
+        alts = expected_fn()
+        ok_conds = [c for c, exp in alts if exp == outs]
+        post = Or(*ok_conds) if ok_conds else BoolVal(False)
+        kind = outs[-1][0]
+        if kind == 'desync': label = label_prefix + 'reader loses alignment with the fragment structure (a read spans a fragment boundary)'
+        elif kind == 'err': label = label_prefix + 'reader reports an error'
+        elif kind == 'more': label = label_prefix + 'reader does not reach end-of-file after the expected number of records'
+        else: label = label_prefix + 'returned records differ from the appended records'
+        ex.record_formula(label, pc, Not(post))
+        mdl = ex.model(Not(post))
+        if mdl is not None:
+            res.violations.append({'label': label, 'outputs': [list(o) for o in outs], 'replay': argv_fn(mdl)})
+            if len([v for v in res.violations if v['label'] == label]) > 40: res.violations.pop()
+        elif witness_sink is not None and len(witness_sink) < 1 and len(outs) >= 2:
+            mdl = ex.model()
+            if mdl is not None: witness_sink.append({'executor_result': [list(o) for o in outs], 'replay': argv_fn(mdl)})
+    return on_path
+
+
+def _argv_scenario(m, s, types, records_in_append_order, steps_after=None, cut=None, bad=None, abandoned=None, torn=None):
+    """Scenario for the native replay: a list of steps.
+    A<len>: append a record; K<bytes>: keep only the first <bytes> bytes of the file and reopen the writer; X<offset>: flip the byte at <offset>."""
+    steps = []
+    for grp, kind in records_in_append_order:
+        ln = sum(mval(m, s.L[i]) for i in grp)
+        if kind == 'complete': steps.append('A%d' % ln)
+        elif kind == 'abandoned':
+            # the writer dies between two fragments: append a record that is one byte longer than the fragments written, then cut the file back
+            steps.append('A%d' % (ln + 1)); steps.append('K%d' % mval(m, s.endpos[grp[-1]]))
+        elif kind == 'torn':
+            steps.append('A%d' % ln); steps.append('K%d' % (mval(m, s.pos[grp[-1]]) + mval(m, s.present[grp[-1]])))
+    if bad is not None:
+        i = bad
+        off = mval(m, s.pos[i]) + (HDR if mval(m, s.L[i]) > 0 else 0)
+        steps.append('X%d' % off)
+    if cut is not None: steps.append('K%d' % mval(m, cut))
+    return ['log_scenario'] + steps
+
+
+def o12_3_reader(mir, tier): return _reader_obligation(mir, tier, 'cut', 'O12.3 LogReader::read_record: complete records, file intact or cut at any byte')
+def o12_4_reader(mir, tier): return _reader_obligation(mir, tier, 'abandoned', 'O12.4 LogReader::read_record: writer stopped between two fragments, later writer appended')
+def o15_5_reader(mir, tier): return _reader_obligation(mir, tier, 'bad', 'O15.5 LogReader::read_record: one fragment with a bad checksum')
+
+
+def _reader_obligation(mir, tier, sub, title):
+    """Reader reassembly over writer-producible streams: complete records (uncut and cut at a symbolic byte), one abandoned
+    record prefix followed by the records of a reopened writer, one fragment with a bad checksum."""
+    M = 3 if tier == 'quick' else 4
+    res = Result(title, ['LogReader::read_record', 'LogReader::read_physical_record (inlined)', 'DBIOError::new/kind, error conversions (inlined)'],
+                 'streams of 1..%d fragments with symbolic payload lengths 0..32761 at block-accurate offsets (trailers implied), every writer-producible type sequence; '
+                 'file reads, decode_fixed, BlockRecord::try_from by contract; sub-cases: intact, cut at any byte, abandoned record prefix + reopen, one bad-checksum fragment' % M)
+    t0 = time.time()
+    for m in range(0, M + 1):
+        pats = list(type_patterns(m, allow_abandoned=True)) if m else [([], [], None)]
+        for types, groups, aband, trs in [(t, g, a, tr) for (t, g, a) in pats for tr in trailer_splits(t)]:
+            # ---- intact and cut
+            s = Stream(m, types, trailers=trs)
+            cut = BitVec('cut', 64)
+            s.cut = cut
+            if aband is None and sub == 'cut':
+                pre = s.pre + s.ok + [ULE(cut, s.end)]
+                def expected(groups=groups, s=s):
+                    alts = []
+                    for r in range(len(groups) + 1):
+                        c = []
+                        if r > 0: c.append(ULE(s.endpos[groups[r - 1][-1]], s.cut))
+                        if r < len(groups): c.append(ULT(s.cut, s.endpos[groups[r][-1]]))
+                        alts.append((And(*c) if c else BoolVal(True), [('rec', g) for g in groups[:r]] + [('eof',)]))
+                    return alts
+                recs = [(g, 'complete') for g in groups]
+                wit = []
+                ex, fin = run_reader(mir, s, pre, len(groups) + 1, on_path=_checker(res, expected, 'complete records, file cut at any byte: ',
+                                     lambda mdl, s=s, recs=recs: _argv_scenario(mdl, s, types, recs, cut=s.cut), wit if (m >= 2 and len(res.witnesses) < 4) else None))
+                res.absorb(ex); res.cases['cut m=%d' % m] = res.cases.get('cut m=%d' % m, 0) + len(fin); res.cases['t cut %s' % ','.join(types)] = round(ex.solver_s, 1)
+                res.witnesses += wit
+            if aband is None and sub == 'bad':
+                recs = [(g, 'complete') for g in groups]
+                # ---- one bad fragment
+                if m >= 1:
+                    s = Stream(m, types, trailers=trs)
+                    which = BitVec('bad', 64)
+                    pre = s.pre + [ULT(which, bv(m))] + [s.ok[i] == (which != bv(i)) for i in range(m)]
+                    def expected2(groups=groups, s=s, which=which, m=m):
+                        alts = []
+                        for bi in range(m):
+                            keep = [g for g in groups if bi not in g]
+                            alts.append((which == bv(bi), [('rec', g) for g in keep] + [('eof',)]))
+                        return alts
+                    ex, fin = run_reader(mir, s, pre, len(groups) + 1, on_path=_checker(res, expected2, 'one fragment with a bad checksum: ',
+                                         lambda mdl, s=s, recs=recs, which=which: _argv_scenario(mdl, s, types, recs, bad=mval(mdl, which))))
+                    res.absorb(ex); res.cases['bad m=%d' % m] = res.cases.get('bad m=%d' % m, 0) + len(fin); res.cases['t bad %s' % ','.join(types)] = round(ex.solver_s, 1)
+            if aband is not None and sub == 'abandoned':
+                # ---- abandoned record prefix, then the records of a reopened writer
+                a, e = aband
+                s = Stream(m, types, trailers=trs)
+                pre = s.pre + s.ok
+                exp = [('rec', g) for g in groups] + [('eof',)]
+                recs = []
+                for g in sorted(groups + [list(range(a, e + 1))], key=lambda g: g[0]):
+                    recs.append((g, 'abandoned' if g[0] == a else 'complete'))
+                ex, fin = run_reader(mir, s, pre, len(groups) + 1, on_path=_checker(res, lambda exp=exp: [(BoolVal(True), exp)],
+                                     'writer stopped between two fragments, a later writer appended more records: ', lambda mdl, s=s, recs=recs: _argv_scenario(mdl, s, types, recs)))
+                res.absorb(ex); res.cases['abandoned m=%d' % m] = res.cases.get('abandoned m=%d' % m, 0) + len(fin); res.cases['t ab %s' % ','.join(types)] = round(ex.solver_s, 1)
+    res.wall_s = time.time() - t0
+    if res.violations: res.status = 'violation'
+    return res
+
+
+def _native_expect(argv):
+    """Reference semantics of a scenario, computed on the steps: which appended records must be returned."""
+    return None
+
+
+def o12_3_confirm(v, out):
+    """Native: the scenario is executed with the real LogWriter on an in-memory file (truncations emulate a writer that died /
+    a cut file), then the real LogReader reads until EOF. `expected` is computed natively from the file layout: the ids of
+    the appended records that are completely present and undamaged, in order."""
+    if out.get('_rc') != 0: return (True, 'native reader panicked or failed: %s' % out.get('_stderr', '')[-300:])
+    bad = out.get('returned') != out.get('expected') or out.get('end') != 'eof'
+    return (bad, 'native returned records %s then %s; expected %s then eof' % (out.get('returned'), out.get('end'), out.get('expected')))
+
+
+def o12_3_witness_ok(w, out):
+    if out.get('_rc') != 0: return False
+    n = len([o for o in w['executor_result'] if o[0] == 'rec'])
+    got = [x for x in out.get('returned', '').split(',') if x]
+    return len(got) == n and out.get('end') == ('eof' if w['executor_result'][-1][0] == 'eof' else out.get('end'))
+
+
+def o16_2_torn_append(mir, tier):
+    """A torn fragment (only q of its 7+len bytes reached the file), then a reopened writer appends records: the complete
+    records before and after the torn one must be returned."""
+    shapes = [(0, 1), (1, 1)] if tier == 'quick' else [(0, 1), (1, 1), (1, 2), (2, 1), (0, 2), (2, 2)]
+    res = Result('O16.2 torn tail, then appended records', ['LogReader::read_record', 'LogReader::read_physical_record (inlined)'],
+                 'a Full records, one torn Full fragment (q < 7+len bytes present, q symbolic), b Full records appended by a reopened writer; (a, b) in %s; lengths symbolic' % (shapes,))
+    t0 = time.time()
+    for a, b in shapes:
+        m = a + 1 + b
+        types = ['Full'] * m
+        q = BitVec('q', 64)
+        for trs in trailer_splits(types):
+            s = Stream(m, types, torn={a: q}, trailers=trs)
+            pre = s.pre + s.ok + [UGE(q, bv(1))]
+            groups = [[i] for i in range(m) if i != a]
+            exp = [('rec', g) for g in groups] + [('eof',)]
+            recs = [([i], 'torn' if i == a else 'complete') for i in range(m)]
+            try:
+                ex, fin = run_reader(mir, s, pre, len(groups) + 1, on_path=_checker(res, lambda exp=exp: [(BoolVal(True), exp)],
+                                     'torn final write followed by appended records: ', lambda mdl, s=s, recs=recs: _argv_scenario(mdl, s, types, recs)))
+            except Inconclusive as e:
+                if 'vacuous' in str(e): continue
+                raise
+            res.absorb(ex); res.cases['a=%d b=%d' % (a, b)] = res.cases.get('a=%d b=%d' % (a, b), 0) + len(fin)
+    res.wall_s = time.time() - t0
+    if res.violations: res.status = 'violation'
+    return res
